@@ -479,7 +479,190 @@ def pipeline_to_loops(fn):
     return ast.fix_missing_locations(fn)
 
 
+class UnpackLiteralComp(ast.NodeTransformer):
+    """a, b, c = (f(u, v) for u, v in ((x1, y1), (x2, y2), (x3, y3)))   ->   a, b, c = (f(x1, y1), f(x2, y2), f(x3, y3))
+    (a generator / list comprehension over a literal sequence, unpacked into as many names: the items written out)."""
+
+    def visit_Assign(self, node):
+        self.generic_visit(node)
+        import copy
+        if len(node.targets) != 1 or not isinstance(node.targets[0], (ast.Tuple, ast.List)):
+            return node
+        tg, v = node.targets[0], node.value
+        if any(isinstance(e, ast.Starred) for e in tg.elts) or not isinstance(v, (ast.GeneratorExp, ast.ListComp)) or len(v.generators) != 1:
+            return node
+        g = v.generators[0]
+        if g.ifs or g.is_async or not isinstance(g.iter, (ast.Tuple, ast.List)) or len(g.iter.elts) != len(tg.elts):
+            return node
+        items = []
+        for it in g.iter.elts:
+            m = {}
+            if isinstance(it, ast.Starred) or not _destructure(g.target, it, m):
+                return node
+            items.append(_Replace(m).visit(copy.deepcopy(v.elt)))
+        node.value = ast.copy_location(ast.Tuple(elts=items, ctx=ast.Load()), v)
+        return ast.fix_missing_locations(node)
+
+
+class FoldConstantComp(ast.NodeTransformer):
+    """(n for n in range(3) if n != 0)  ->  (1, 2): a comprehension over a constant range whose element and conditions mention only the
+    loop variable and constants (what is left of `j, k = (n for n in range(3) if n != i)` once a helper was inlined with i = 0)."""
+    OK = (ast.Compare, ast.BoolOp, ast.BinOp, ast.UnaryOp, ast.Constant, ast.Name, ast.Load, ast.operator, ast.cmpop, ast.boolop, ast.unaryop,
+          ast.And, ast.Or, ast.Not)
+
+    def _fold(self, node):
+        if len(node.generators) != 1:
+            return node
+        g = node.generators[0]
+        it = g.iter
+        if g.is_async or not isinstance(g.target, ast.Name) or not (isinstance(it, ast.Call) and isinstance(it.func, ast.Name) and it.func.id == "range"
+                                                                    and 1 <= len(it.args) <= 3 and not it.keywords
+                                                                    and all(isinstance(a, ast.Constant) and isinstance(a.value, int) for a in it.args)):
+            return node
+        var = g.target.id
+        for part in [node.elt] + list(g.ifs):
+            for sub in ast.walk(part):
+                if not isinstance(sub, self.OK) or (isinstance(sub, ast.Name) and sub.id != var):
+                    return node
+        rng = range(*[a.value for a in it.args])
+        if len(rng) > 24:
+            return node
+        out = []
+        try:
+            for val in rng:
+                env = {var: val}
+                if all(eval(compile(ast.Expression(c), "<fold>", "eval"), {"__builtins__": {}}, env) for c in g.ifs):
+                    out.append(eval(compile(ast.Expression(node.elt), "<fold>", "eval"), {"__builtins__": {}}, env))
+        except Exception:      # noqa: BLE001
+            return node
+        if not all(isinstance(x, (int, float, bool)) for x in out):
+            return node
+        lit = ast.Tuple(elts=[ast.Constant(x) for x in out], ctx=ast.Load())
+        if isinstance(node, ast.ListComp):
+            lit = ast.List(elts=lit.elts, ctx=ast.Load())
+        return ast.fix_missing_locations(ast.copy_location(lit, node))
+
+    def visit_GeneratorExp(self, node):
+        self.generic_visit(node)
+        return self._fold(node)
+
+    def visit_ListComp(self, node):
+        self.generic_visit(node)
+        return self._fold(node)
+
+
+class _FoldConst(ast.NodeTransformer):
+    """constant folding of what is left after a name was replaced by a literal: "-" + "x", "xyz".index("x"), "x" in "xyz", None is not None"""
+
+    def visit_BinOp(self, node):
+        self.generic_visit(node)
+        if isinstance(node.op, ast.Add) and isinstance(node.left, ast.Constant) and isinstance(node.right, ast.Constant) \
+                and isinstance(node.left.value, str) and isinstance(node.right.value, str):
+            return ast.copy_location(ast.Constant(node.left.value + node.right.value), node)
+        return node
+
+    def visit_Call(self, node):
+        self.generic_visit(node)
+        f = node.func
+        if isinstance(f, ast.Attribute) and f.attr in ("index", "find") and isinstance(f.value, ast.Constant) and isinstance(f.value.value, (str, tuple)) \
+                and len(node.args) == 1 and not node.keywords and isinstance(node.args[0], ast.Constant):
+            try:
+                return ast.copy_location(ast.Constant(getattr(f.value.value, f.attr)(node.args[0].value)), node)
+            except (ValueError, TypeError):
+                return node
+        return node
+
+    def visit_Compare(self, node):
+        self.generic_visit(node)
+        if len(node.ops) == 1 and isinstance(node.left, ast.Constant) and isinstance(node.comparators[0], ast.Constant):
+            a, b, op = node.left.value, node.comparators[0].value, node.ops[0]
+            try:
+                if isinstance(op, ast.Is):
+                    return ast.copy_location(ast.Constant(a is b), node)
+                if isinstance(op, ast.IsNot):
+                    return ast.copy_location(ast.Constant(a is not b), node)
+                if isinstance(op, ast.Eq):
+                    return ast.copy_location(ast.Constant(a == b), node)
+                if isinstance(op, ast.NotEq):
+                    return ast.copy_location(ast.Constant(a != b), node)
+                if isinstance(op, ast.In) and isinstance(b, str) and isinstance(a, str):
+                    return ast.copy_location(ast.Constant(a in b), node)
+            except TypeError:
+                return node
+        return node
+
+    def visit_If(self, node):
+        self.generic_visit(node)
+        if isinstance(node.test, ast.Constant) and isinstance(node.test.value, bool):
+            return node.body if node.test.value else (node.orelse or [ast.copy_location(ast.Pass(), node)])
+        return node
+
+
+class SearchToBranches(ast.NodeTransformer):
+    """axis = next((a for a in "xyz" if a in symbol), None) ; REST   ->   if "x" in symbol: REST[axis := "x"] elif "y" in symbol: ... else:
+    REST[axis := None] -- a first-match search over a short literal, written out as the if/elif chain it abbreviates, with the found value
+    propagated into the statements that follow it in the same block (they are duplicated per branch and constant-folded)."""
+    MAX = 6
+
+    def _rewrite(self, body):
+        import copy
+        for k, st in enumerate(body):
+            if not (isinstance(st, ast.Assign) and len(st.targets) == 1 and isinstance(st.targets[0], ast.Name) and isinstance(st.value, ast.Call)
+                    and isinstance(st.value.func, ast.Name) and st.value.func.id == "next" and len(st.value.args) == 2 and not st.value.keywords
+                    and isinstance(st.value.args[0], ast.GeneratorExp) and isinstance(st.value.args[1], ast.Constant)):
+                continue
+            g = st.value.args[0]
+            if len(g.generators) != 1 or not isinstance(g.generators[0].target, ast.Name) or not isinstance(g.elt, ast.Name) \
+                    or g.elt.id != g.generators[0].target.id:
+                continue
+            it = g.generators[0].iter
+            if isinstance(it, ast.Constant) and isinstance(it.value, str):
+                items = [ast.Constant(c) for c in it.value]
+            elif isinstance(it, (ast.Tuple, ast.List)) and all(isinstance(e, ast.Constant) for e in it.elts):
+                items = list(it.elts)
+            else:
+                continue
+            name = st.targets[0].id
+            rest = body[k + 1:]
+            if not items or len(items) > self.MAX or any(isinstance(n, (ast.Assign, ast.AugAssign, ast.For, ast.With)) and any(
+                    isinstance(t, ast.Name) and t.id == name and isinstance(t.ctx, ast.Store) for t in ast.walk(n)) for r in rest for n in ast.walk(r)):
+                continue
+            var = g.generators[0].target.id
+
+            def branch(value):
+                out = [ast.copy_location(ast.Assign([ast.Name(name, ast.Store())], copy.deepcopy(value)), st)]
+                for r in rest:
+                    r2 = _FoldConst().visit(_Replace({name: value}).visit(copy.deepcopy(r)))
+                    out.extend(r2 if isinstance(r2, list) else [r2])
+                return out
+            chain = branch(st.value.args[1])
+            for item in reversed(items):
+                conds = [_FoldConst().visit(_Replace({var: item}).visit(copy.deepcopy(c))) for c in g.generators[0].ifs]
+                test = conds[0] if len(conds) == 1 else (ast.BoolOp(ast.And(), conds) if conds else ast.Constant(True))
+                chain = [ast.copy_location(ast.If(test, branch(item), chain), st)]
+            new = body[:k] + chain
+            for n in new:
+                ast.fix_missing_locations(n)
+            return new
+        return None
+
+    def generic_visit(self, node):
+        super().generic_visit(node)
+        for fld in ("body", "orelse", "finalbody"):
+            b = getattr(node, fld, None)
+            if isinstance(b, list) and b and all(isinstance(x, ast.stmt) for x in b):
+                for _ in range(4):
+                    nb = self._rewrite(b)
+                    if nb is None:
+                        break
+                    b = nb
+                setattr(node, fld, b)
+        return node
+
+
 def normalise(tree):
+    tree = SearchToBranches().visit(tree)
+    tree = UnpackLiteralComp().visit(tree)
     tree = DictMembership().visit(tree)
     tree = DictUpdate().visit(tree)
     tree = TakeWhile().visit(tree)
